@@ -895,6 +895,10 @@ pub enum Step {
     Ev(usize),
     /// answer (or stream item) for the k-th outstanding request, in issue order
     Resp(usize),
+    /// C09: an undecodable answer (or stream item) for the k-th outstanding request, at most
+    /// once per history: every bridge must reject it; the twin's request is dropped if it is a
+    /// one-shot and left alone if it is a stream
+    Garbage(usize),
     // ---- C12 only: the system must be [typed twin, one bridge] --------------------------------
     /// every undecodable member of the event fault family, one after the other, on one instance
     BadEvBatch,
@@ -916,6 +920,7 @@ pub fn show_steps(steps: &[Step]) -> String {
         .map(|s| match s {
             Step::Ev(i) => crate::app::MENU_NAMES[*i].to_string(),
             Step::Resp(k) => format!("answer#{k}"),
+            Step::Garbage(k) => format!("undecodable-answer#{k}"),
             Step::BadEvBatch => "<all undecodable events>".to_string(),
             Step::BadEv(b) => format!("event 0x{} ({:?})", hex(b), String::from_utf8_lossy(b)),
             Step::BadResp(k, b) => {
@@ -957,6 +962,7 @@ pub struct System {
     pub stats: SysStats,
     /// per bridge lane: ids of resolvable requests that have completed
     pub(crate) freed: Vec<std::collections::BTreeSet<u32>>,
+    pub garbage_used: bool,
     /// C11: hash chain over (outcome class, canonical batch bytes, view bytes) of every lane
     /// after every step
     pub record: bool,
@@ -1018,6 +1024,7 @@ impl System {
             step_no: 0,
             stats: SysStats::default(),
             freed: kinds.iter().map(|_| Default::default()).collect(),
+            garbage_used: false,
             record: false,
             transcript: 0xcbf29ce484222325,
             fault: None,
@@ -1026,8 +1033,13 @@ impl System {
         }
     }
 
-    pub fn enabled(&self, max_out: usize) -> Vec<Step> {
+    pub fn enabled(&self, max_out: usize, garbage: bool) -> Vec<Step> {
         let mut v = vec![];
+        if garbage && !self.garbage_used {
+            for k in 0..self.out.len() {
+                v.push(Step::Garbage(k));
+            }
+        }
         if self.out.len() < max_out {
             for i in 0..crate::app::MENU {
                 v.push(Step::Ev(i));
@@ -1043,6 +1055,7 @@ impl System {
         match s {
             Step::Ev(m) => *m < crate::app::MENU,
             Step::Resp(k) | Step::BadResp(k, _) => *k < self.out.len(),
+            Step::Garbage(k) => *k < self.out.len() && !self.garbage_used,
             Step::BadNote(j, _) => *j < self.notes.len(),
             Step::BadEvBatch | Step::BadEv(_) => true,
         }
@@ -1060,6 +1073,7 @@ impl System {
         let mut outcomes = vec![];
         let mut answered: Option<Entry> = None;
         match step {
+            Step::Garbage(k) => return self.garbage(*k, check),
             Step::BadEvBatch => return self.bad_event_batch(),
             Step::BadEv(b) => return self.bad_event(b),
             Step::BadResp(k, b) => return self.bad_response(*k, b),
@@ -1096,6 +1110,72 @@ impl System {
             self.transcript = self.step_record_hash(&classes);
         }
         f
+    }
+
+    /// One undecodable answer on every bridge lane; the twin is told what that amounts to.
+    fn garbage(&mut self, k: usize, check: bool) -> Vec<Finding> {
+        self.garbage_used = true;
+        let (hs, kind, op) = {
+            let e = &self.out[k];
+            (e.h.clone(), e.kind, e.op.short())
+        };
+        let mut findings = vec![];
+        let mut classes = vec![];
+        for (li, lane) in self.lanes.iter_mut().enumerate() {
+            let h = hs[li];
+            match lane.kind.codec() {
+                None => {
+                    if kind == Kind::Once {
+                        lane.drop_request(h);
+                        classes.push("request dropped".to_string());
+                    } else {
+                        classes.push("untouched".to_string());
+                    }
+                }
+                Some(codec) => {
+                    let bytes: &[u8] = match codec {
+                        Codec::Bin => &[],
+                        Codec::Json => b"}",
+                    };
+                    let o = lane.respond_bytes(h, bytes);
+                    classes.push(o.class());
+                    match &o {
+                        Outcome::Rejected(Reject::DeserializeOutput, _) => {}
+                        Outcome::Panicked(p) => findings.push(Finding {
+                            key: panic_key(p),
+                            what: format!(
+                                "{} panicked on an undecodable answer to {op}: {} ({}:{})",
+                                lane.kind.name(),
+                                p.message.lines().next().unwrap_or(""),
+                                p.file,
+                                p.line
+                            ),
+                        }),
+                        other => findings.push(Finding {
+                            key: "undecodable-answer/not-rejected".into(),
+                            what: format!(
+                                "{} answered {:?} to an undecodable answer to {op}",
+                                lane.kind.name(),
+                                other
+                            ),
+                        }),
+                    }
+                }
+            }
+        }
+        self.last = classes.join(" | ");
+        if kind == Kind::Once {
+            let e = self.out.remove(k);
+            for (li, lane) in self.lanes.iter().enumerate() {
+                if lane.kind.codec().is_some() {
+                    self.freed[li].insert(lane.reqs[e.h[li]].id);
+                }
+            }
+        }
+        if findings.is_empty() && check {
+            findings.extend(self.check_state());
+        }
+        findings
     }
 
     fn step_record_hash(&mut self, classes: &[String]) -> u64 {
